@@ -214,6 +214,34 @@ func GenExpr(r *Rand) Expr {
 		{"error(\"boom\")", "error", false, false},
 		{"select(.a > " + n + ") | error(\"boom at \" + .id)", "error", false, false},
 		{".d[5] = 1", "assign", true, true},
+		// relative (|=) forms of the assignable operators
+		{".b style |= \"double\"", "style", true, true},
+		{".c style |= \"flow\"", "style", true, true},
+		{".a style = (.b | style)", "style", true, true},
+		{".b tag |= \"!!str\"", "style", true, true},
+		{".a tag = (.b | tag)", "style", true, true},
+		{".a line_comment |= \"rel\"", "comments", true, true},
+		{".c head_comment |= \"rel\"", "comments", true, true},
+		{".a line_comment = .b", "comments", true, true},
+		{".c anchor = \"anc2\"", "anchors", true, true},
+		{".c anchor |= \"rel\"", "anchors", true, true},
+		{"... comments |= \"c\"", "comments", true, true},
+		// regular expressions built from the document (string interpolation)
+		{".c.y as $p | .e[] | select(.k | test(\"^\\($p)\")) | .v", "regex", true, false},
+		{".c.y as $p | [.e[].k | test(\"^\\($p)\")]", "regex", false, false},
+		{".id | test(\"d\\(.a)\")", "regex", false, false},
+		{".id | sub(\"d\\(.a)\", \"D\")", "regex", false, false},
+		{".b as $p | .id | match(\"\\($p)\") | .string", "regex", false, false},
+		{".id | capture(\"(?P<file>f[0-9]+)d(?P<doc>[0-9]+)\")", "regex", false, false},
+		{".e | pivot", "construct", false, false},
+		{"[.e[] | keys] | flatten | unique", "construct", false, false},
+		{".e | map(keys | length)", "construct", false, false},
+		{".d | .[" + strconv.Itoa(r.Range(-6, 6)) + ":" + strconv.Itoa(r.Range(-6, 6)) + "]", "slice", false, false},
+		{".d | .[" + strconv.Itoa(r.Range(-6, 6)) + ":]", "slice", false, false},
+		{".d | .[:" + strconv.Itoa(r.Range(-6, 6)) + "]", "slice", false, false},
+		{".b | .[" + strconv.Itoa(r.Range(-3, 3)) + ":" + strconv.Itoa(r.Range(-3, 3)) + "]", "slice", false, false},
+		{".d[" + strconv.Itoa(r.Range(-6, 6)) + "]", "path", true, false},
+		{"explode(.) | .c2", "anchors", true, true},
 		{"with(.e[]; .v = .v * 2)", "with", true, true},
 		{".a = (.d | length)", "assign", true, true},
 		{".first = .e[0].k", "assign", true, true},
@@ -224,7 +252,7 @@ func GenExpr(r *Rand) Expr {
 	// occasionally pipe two expressions
 	if r.Chance(1, 6) {
 		u := Pick(r, ts)
-		if u.family != "error" && t.family != "error" {
+		if u.family != "error" && t.family != "error" && u.family != "splitdoc" && t.family != "splitdoc" {
 			if !t.preserving && usesIndex(u.s) {
 				// di/fi/filename of a node built by the expression is a known finding (no provenance); not drawn
 				return e
@@ -234,7 +262,8 @@ func GenExpr(r *Rand) Expr {
 		}
 	} else if r.Chance(1, 10) {
 		u := Pick(r, ts)
-		if u.family != "error" && t.family != "error" {
+		// split_doc renumbers the documents in place; it is only drawn on its own
+		if u.family != "error" && t.family != "error" && u.family != "splitdoc" && t.family != "splitdoc" {
 			e = Expr{S: "(" + t.s + "), (" + u.s + ")", Family: t.family + "," + u.family, Preserving: t.preserving && u.preserving, Mutating: t.mutating || u.mutating, Total: exprTotal(t.s) && exprTotal(u.s)}
 			e.Alts = append(e.Alts, t.s, u.s)
 		}
@@ -270,3 +299,34 @@ func exprTotal(s string) bool {
 	}
 	return true
 }
+
+// ExprThemes: small families of expressions that share operator descriptors,
+// caches or helper state. A themed job pool draws most of its jobs from one
+// family so that evaluations which touch the same machinery meet each other.
+var ExprThemes = map[string][]string{
+	"assignops": {
+		".b style = \"double\"", ".b style |= \"single\"", ".a style = (.b | style)", ".c style |= \"flow\"", ".. style=\"double\"", ".c style=\"flow\"",
+		".b tag = \"!!str\"", ".b tag |= \"!!str\"", ".a tag = (.b | tag)", ".a line_comment = \"note\"", ".a line_comment |= \"rel\"", ".a line_comment = .b",
+		". head_comment=\"top\"", ".c head_comment |= \"rel\"", ".c anchor = \"anc2\"", ".c anchor |= \"rel\"", "... comments=\"\"", "... comments |= \"c\"", ".a foot_comment = \"f\"", ".a foot_comment |= \"g\"",
+		".b | style", ".b | tag", ".a | line_comment", ".c | anchor",
+	},
+	"regex": {
+		".c.y as $p | .e[] | select(.k | test(\"^\\($p)\")) | .v", ".c.y as $p | [.e[].k | test(\"^\\($p)\")]", ".id | test(\"d\\(.a)\")", ".id | sub(\"d\\(.a)\", \"D\")",
+		".b as $p | .id | match(\"\\($p)\") | .string", ".id | capture(\"(?P<file>f[0-9]+)d(?P<doc>[0-9]+)\")", ".b | test(\"a\")", ".b | sub(\"a\", \"o\")", ".id | match(\"[a-z]+\") | .string", "[.e[].k | test(\"^\\(.)\")]",
+		".b | split(\" \")", ".id | split(\"-\") | .[0]", "\"v=\\(.a)\"", "\"\\(.id):\\(.c.x)\"",
+	},
+	"sort": {
+		".e |= sort_by(.k)", ".e |= sort_by(.v)", ".e |= sort_by(.k, .v)", ".d |= sort", ".d | sort", ".e | sort_by(.v) | .[0]", ".e | sort_by(.k) | .[].v", "[.e[] | .v] | sort | .[-1]", "sort_keys(.)", "sort_keys(..)",
+		".d | sort | reverse", ".e | group_by(.k)", ".e | unique_by(.k)", ".d | unique", ".d | (min, max)", "[.. | select(kind == \"scalar\")] | sort",
+	},
+	"encode": {
+		"to_json", "@json", "tojson", ".c | to_yaml", ".c | @props", ".d | @csv", "[.c] | @csv", ".b | @base64", ".b | @base64 | @base64d", ".c | to_json | from_json", ".c | to_xml", ". | to_yaml | from_yaml | .id", ".c | to_props | from_props",
+		".b | @uri", ".b | @sh", ".c | to_json(0)", ".c | to_yaml(4)", ".d | @tsv", ".c | to_xml | from_xml",
+	},
+	"variables": {
+		".a as $x | $x + 1", ".d as $d | $d | length", ".a as $x | .d[] | . + $x", ".d[] as $i ireduce (0; . + $i)", ".e[] as $i ireduce ({}; .[$i.k] = $i.v)", ".c.y as $p | .e[] | select(.k == $p)", ".a as $x | .b as $y | [$x, $y]",
+		"with(.c; .x = 1 | .q = 2)", "with(.e[]; .v = .v * 2)", ".c |= with_entries(.key |= \"k_\" + .)", ".c | to_entries | from_entries", ". as $d | $d.a", ".e[] as $x | $x.k",
+	},
+}
+
+var ExprThemeNames = []string{"assignops", "regex", "sort", "encode", "variables"}
